@@ -50,6 +50,7 @@ def case_st(draw, op=None, bkind=None, dtype=None):
     if op == "pow":
         ks = EXPONENTS if not dta.startswith("int") else [0, 0.5, 1, 2, 3, -1.0, 2.0]
         case["k"] = draw(st.sampled_from(ks))
+        case["k_as"] = draw(st.sampled_from(["py", "py", "npf", "nd0"]))
         return case
     if op in ("rmul", "rdiv"):
         kind = draw(st.sampled_from(["num", "npf", "int"]))
@@ -114,6 +115,11 @@ def arith(case, r):
     if dta != "float64":
         r.label("non_float64")
 
+    if op == "pow" and case.get("k_as") == "nd0" and um.is_dimensionless(au) and abs(au[0] - 1) > 0:
+        # an ndarray exponent on a scaled dimensionless base (cm/m) goes through pint's dimensionless branch;
+        # the property speaks of numbers k, the 0-d ndarray form is only generated for ordinary bases
+        r.label("skipped_scaled_dimensionless_ndexp")
+        return
     snap_a, snap_b = _snap(a), (_snap(b) if b is not None else None)
     with warnings.catch_warnings(), np.errstate(all="ignore"):
         warnings.simplefilter("ignore")
@@ -129,7 +135,12 @@ def arith(case, r):
             elif op == "neg":
                 res = -a
             elif op == "pow":
-                res = a ** case["k"]
+                k = case["k"]
+                if case.get("k_as") == "npf":
+                    k = np.float64(k)
+                elif case.get("k_as") == "nd0":
+                    k = np.array(k)
+                res = a ** k
             elif op in ("rmul", "ndmul"):
                 res = b * a
             elif op in ("rdiv", "nddiv"):
@@ -199,7 +210,8 @@ def arith(case, r):
               f"a={case['a']['dtype']}[{case['a']['unit']}] b={case.get('b')}")
         return
     got = um.to_cgs(res.values, gu)
-    factor_involved = factor_involved or abs(gu[0] - 1) > 0 or abs(au[0] - 1) > 0
+    factor_involved = factor_involved or abs(gu[0] - 1) > 0 or abs(au[0] - 1) > 0 or (
+        bu is not None and abs(bu[0] - 1) > 0)
     dts = [res.dtype, np.dtype(dta)] + ([np.dtype(case["b"]["dtype"])] if b is not None and "dtype" in case["b"] else [])
     lowp = any(d.kind == "f" and d.itemsize == 4 for d in dts)
     rtol = _tol(np.float32 if lowp else np.float64, factor_involved)
@@ -239,6 +251,8 @@ def _table_cases():
                 c = {"op": op, "a": {"k": "A", "dtype": dta, "shape": [3], "vals": [1, 2, 4], "unit": "km"}, "rel": "table"}
                 if k is not None:
                     c["k"] = k
+                    out.append(dict(c, k_as="nd0"))
+                    out.append(dict(c, k_as="npf"))
                 out.append(c)
     for op in ["rmul", "rdiv", "ndmul", "nddiv"]:
         for dta in vs.DTYPES:
